@@ -67,6 +67,10 @@ def OpsImpl.renderForm (o : OpsImpl) (l r : Bool) (w : WCB) : GToks :=
   let this := thisTyToks o.name o.generics
   let implG := U o.xgenerics.implToks
   let fn := o.funcName
+  -- in `impl .. for &X` `Self` is not the type: field types and where-clause entries have it written out
+  let self_ := thisTy o.name o.generics
+  let w := w.selfExpanded self_
+  let o : OpsImpl := { o with fields := o.fields.map fun (f : FieldE) => { f with field := { f.field with ty := Ty.expandSelf self_ f.field.ty } } }
   match o.kind with
   | .bin _ =>
     let selfTy := withRef this l
